@@ -22,7 +22,9 @@ where
     }
 
     fn len(&self) -> usize {
-        self.source.len()
+        // Every read path clips to the window-start mapping as well: report the same length,
+        // otherwise position-based readers (Cursor) walk past what the reads return.
+        self.source.len().min((self.window_starts)().len())
     }
 
     #[inline]
